@@ -326,6 +326,19 @@ def job_wire(a):
             ep2.feed(fr)
         sent.append(body)
         n += 1
+    if role == "client":
+        # receive-side options do not change what this client sends: still masked with fresh keys
+        for opts2 in ({"acceptMaskedServerFrames": True}, {"acceptMaskedServerFrames": False},
+                      {"acceptMaskedServerFrames": True, "maskClientFrames": True}):
+            ep3 = ws.open_endpoint(role, opts2)
+            st3 = len(ep3.t.written)
+            ep3.proto.sendMessage(b"still masked?", True)
+            ep3.proto.sendPing(b"")
+            fr3, used3 = F.parse_frames(bytes(ep3.t.written[st3:]))
+            n += len(fr3)
+            if used3 != len(ep3.t.written) - st3 or len(fr3) != 2 or not all(f.masked for f in fr3):
+                bad("client-frame-unmasked", "client configured with %r: frames sent %s" % (
+                    opts2, [(f.opcode, f.masked) for f in fr3]))
     got = [bytes(e[1]) for e in ep2.rec if e[0] == "onMessage"]
     if got != sent:
         bad("received-masked-frames-not-unmasked", "%s received %d masked frames, delivered %r..., expected %r..." % (
